@@ -659,6 +659,16 @@ def _sub(node, env, hook):
         new = type(node)(**kwargs)
         if hasattr(node, "lineno"):
             ast.copy_location(new, node)
+    if isinstance(new, ast.Call) and any(k.arg is None and isinstance(k.value, ast.Dict) for k in new.keywords):
+        # f(**{'a': x, 'b': y})  ==  f(a=x, b=y): one spelling for keyword records
+        kws, okk = [], True
+        for k in new.keywords:
+            if k.arg is None and isinstance(k.value, ast.Dict) and k.value.keys and all(isinstance(dk, ast.Constant) and isinstance(dk.value, str) and dk.value.isidentifier() for dk in k.value.keys):
+                kws += [ast.keyword(arg=dk.value, value=dv) for dk, dv in zip(k.value.keys, k.value.values)]
+            else:
+                kws.append(k)
+        n2 = ast.Call(func=new.func, args=new.args, keywords=kws)
+        new = ast.copy_location(n2, new) if hasattr(new, "lineno") else n2
     if isinstance(new, ast.Call):
         fn = new.func
         if isinstance(fn, ast.Lambda) and not new.keywords and len(fn.args.args) == len(new.args) \
